@@ -49,9 +49,10 @@ func init() {
 			"concurrent = batches of 8 goroutines making 24 calls each in lock step, one entry point per batch (or a mix), each goroutine on its own small well-formed / list-layout / hostile images (new contents in two calls of three, an exact repeat of an earlier image otherwise, every eighth copied into a buffer that is refilled in place) and its own options, judged for panics (recovered per goroutine), fatal runtime errors, non-termination and the summed budgets; " +
 			"refused x options = the complete cross product, in every run, of 13 images the analysis refuses at different depths (empty, one byte, zero bytes, random bytes, size not a page multiple, broken SEV / TDVF signature, no CPUID section, misaligned section, foreign footer, truncated table, no TD-HOB; one valid control) with 12 option shapes that change how much work a request fans out into (all VMSA counts with every product incl. unknown ones, two / an unsold VMSA count, bad family id, no / all / unknown / repeated machine shapes with early accept, no banks, a hostile draw), every entry point; " +
 			"sum wrap = 384 KiB..2 MiB images with 1000..16 000 firmware-volume sections that each cover (most of) the whole file at disjoint guest addresses so that the declared sizes add up to w x 2^32 + the image size (every single field in range), with controls (sum off by a page, exactly w x 2^32, a small multiple of the size, the exact size); " +
+			"declared extent = 4..64 KiB images whose SEV section list declares 1 GiB..~4 GiB of guest memory below the ROM window in 1..8 disjoint sections (carried by pre-validated sections, the secret section, the CPUID section or SVSM CAA sections; list and address order drawn; vCPUs, product, one / all VMSA counts drawn), each paired with its control: the same image with one page declared per section; " +
 			"launch options = vCPU count (incl. 0, negative), product (incl. unknown), endorsement request ids, machine shapes (incl. unknown), early-accept, arbitrary RAM bank lists. " +
 			"Every case runs through GetFwGUIDToBlockMap, SevData.ExtractFromFirmware, sev.LaunchDigest, sev.UnsignedSnp, the three ovmf.ExtractMaterialGuestPhysicalRegions*, tdx.MRTD in default / legacy / early-accept / custom-bank modes and tdx.UnsignedTDX in a child process under ulimit -v 6 GiB. " +
-			"Every call runs on its own goroutine and thread. A call refutes the property when it panics, kills the process, does not return while the whole process stays idle (less than 160 ms of process CPU time over 32 consecutive samples spanning at least 16 s, with the call's goroutine parked on a channel / lock / wait group and no goroutine able to run: rule non-termination:call-blocked-without-using-cpu; that entry point is then not called with that shape of options again in the process), uses more thread CPU than (10 s + 2 s/MiB of image) or allocates more than (256 MiB + 512 bytes per image byte), each multiplied by the number of measurements the call was asked for. " +
+			"Every call runs on its own goroutine and thread. A call refutes the property when it panics, kills the process, does not return while the whole process stays idle (less than 160 ms of process CPU time over 32 consecutive samples spanning at least 16 s, with the call's goroutine parked on a channel / lock / wait group and no goroutine able to run: rule non-termination:call-blocked-without-using-cpu; that entry point is then not called with that shape of options again in the process), uses more thread CPU than (10 s + 2 s/MiB of image) or allocates more than (256 MiB + 512 bytes per image byte), each multiplied by the number of measurements the call was asked for; in the declared-extent stratum also when the call on the image with the extent and the call on its control both return a result and the first allocated over 8 MiB more than the second in each of three measurements of the pair (rule allocation-follows-declared-extent-not-image-size). " +
 			"non-trivial = a call on an image whose mutated fields belong to what that entry point parses (GUID table and whole-image mutations: every entry point; SEV fields: the SEV entry points; TDVF fields: the TDX entry points), or on a well-formed image; distinct = (first mutated field = value class [+ number of further mutations] | entry point | outcome class) cells (list layouts: arrangement = kind of degenerate member, without their number; directed layouts: the ordering), outcome = ok, PANIC or the error text with numbers stripped",
 		Assumptions: []string{
 			"the budget is the reading of 'unrelated to its size' that is enforced: CPU <= 10 s + 2 s/MiB, allocated bytes <= 256 MiB + 512*len(image), per measurement requested (UnsignedSnp with 15 vCPU counts gets 15x, UnsignedTDX with k shapes and early-accept 2k+1)",
@@ -62,6 +63,7 @@ func init() {
 			"'every byte string and every launch option' does not restrict the process in which the analysis runs: earlier calls in the same process (every shard is one process; counters sequence/*) and calls of other goroutines on other images are part of the quantifier, so state the library would keep process-wide (a cache, a pool, a scratch buffer, a lazily built table) is exercised; under concurrency only panics, fatal runtime errors, non-termination and the summed budget of the batch are judged (per-call CPU and allocation cannot be told apart while calls overlap)",
 			"a call that is parked for good is told from one that is slow by what the process consumes, not by a deadline: a live call on a loaded machine keeps receiving CPU time (the samples are taken by the same process, so a process that is not scheduled does not collect them), a goroutine parked on a channel, lock or wait group while nothing else in the process can run never wakes; an idle stretch in which some goroutine is runnable, in a system call, sleeping or waiting for I/O is counted and not judged",
 			"the calls of the sum-wrap stratum that would measure an image whose wrapping sum the parse accepted are behind the constant judgeFvSizeSumWrap (wrap.go): while it is false they are not made (counted under sum-wrap/...), because on a tree that adds the volume sizes up in 32 bits each costs 12..50 s of CPU and gigabytes of allocation and refutes the property (reported finding); the parse-only entry points and the cheap measuring mode still run on these images",
+			"declared-extent stratum: two images of the same size that differ only in the lengths their SEV sections declare, analysed with the same options in the same process, control first: whatever the second call allocates beyond the first is by construction neither a fixed cost nor related to the size of the image, so it is judged without the constant part of the budget; 8 MiB are tolerated for what the process allocates besides the call (samplers, one goroutine dump of the idle watch; a collection before each call settles the runtime's allocation counter; observed excess on the unchanged tree: under 1 KiB) and the smallest of three measurements decides. CPU time is not compared with the control (the tree hashes one record per declared page, ~0.5 s for 4 GiB, which the absolute budget tolerates). Not applied to the TDX half, where the unchanged tree allocates zero buffers of the declared TD-HOB / TempMem sizes up to its 64 MiB cap, which is what the constant part of the budget is sized for",
 			"the -race/checkptr replay of the design is not run: the anchored packages contain no unsafe or cgo code and -race binaries cannot run under ulimit -v",
 		},
 		ShardsQuick: 16, ShardsThor: 16, TimeoutS: 900, TimeoutThor: 3600, UlimitVKB: 6 << 20, Run: run,
